@@ -14,7 +14,7 @@ from simkit.engine import Refuse, Violation
 from simkit.worldbase import BUFS, CHUNKS, WorldBase
 from worlds.c05 import expected_read, parse_frames
 
-PREFIXES = ("dump", "voro_a", "voro_b", "run.v2", "sub/vor")
+PREFIXES = ("dump", "voro_a", "voro_b", "run.v2", "sub/vor", "neighbor_run2", "neighbors.d/glass.T0.45")
 
 
 _VCACHE = {}
@@ -105,6 +105,10 @@ class VConfig:
             for t in range(1, T):
                 self.Ns[t] = int(rng.integers(4, self.N + 1))
                 self.frames[t] = self.frames[t][: self.Ns[t]]
+        if recipe.get("mem") == "f32":
+            # stored in single precision (what the HOOMD converters hand over): the recorded
+            # coordinates *are* the rounded ones, for the library and for the reference alike
+            self.frames = [f.astype(np.float32).astype(np.float64) for f in self.frames]
         self.ref = None
 
     def bounds(self, t=0):
@@ -176,6 +180,37 @@ class VConfig:
         self.ref = out
         return out
 
+    def volmat_reference(self, k, deltar):
+        """The volume-response matrix of frame k from its definition, evaluated by the harness
+        with its own calls to the peer: A[m, d*i+j] = (V_m(x_ij + dr) - V_m(x_ij - dr)) / (2 dr V_m)
+        for m != i, the self term from translation invariance."""
+        import freud
+        pos, L = self.frames[k], self.Ls[k]
+        n, nd = pos.shape
+        centre = self.los[k] + L / 2
+        box = freud.box.Box(Lx=L[0], Ly=L[1], is2D=True) if nd == 2 else freud.box.Box(Lx=L[0], Ly=L[1], Lz=L[2])
+
+        def vols(p):
+            q = p - centre
+            if nd == 2:
+                q = np.hstack((q, np.zeros((n, 1))))
+            v = freud.locality.Voronoi()
+            return np.array(v.compute((box, q)).volumes, dtype=float)
+        v0 = vols(pos)
+        A = np.zeros((n, n * nd))
+        for i in range(n):
+            for j in range(nd):
+                p1 = pos.copy()
+                p1[i, j] += deltar
+                p2 = pos.copy()
+                p2[i, j] -= deltar
+                col = (vols(p1) - vols(p2)) / (2.0 * deltar)
+                col[i] = 0.0
+                A[:, nd * i + j] = col
+        for m in range(n):
+            A[m, nd * m: nd * m + nd] = -A[m].reshape(n, nd).sum(axis=0)
+        return A / v0[:, None]
+
     def general_position(self):
         return all(r[3] for r in self.reference())
 
@@ -183,10 +218,20 @@ class VConfig:
         from PyMatterSim.reader.reader_utils import SingleSnapshot, Snapshots
         snaps = []
         idx = range(self.T) if only is None else [only]
+        mem = self.recipe.get("mem", "C")
         for t in idx:
+            pos = self.frames[t].copy()
+            if mem == "F":
+                pos = np.asfortranarray(pos)                  # column-major, e.g. np.array([x, y, z]).T
+            elif mem == "strided":
+                wide = np.zeros((pos.shape[0], 2 * pos.shape[1] + 1))
+                wide[:, ::2][:, : pos.shape[1]] = pos
+                pos = wide[:, ::2][:, : pos.shape[1]]      # a non-contiguous view into a wider table
+            elif mem == "f32":
+                pos = pos.astype(np.float32)
             snaps.append(SingleSnapshot(
                 timestep=100 * t, nparticle=self.Ns[t], particle_type=np.ones(self.Ns[t], dtype=int),
-                positions=self.frames[t].copy(), boxlength=self.Ls[t].copy(), boxbounds=self.bounds(t),
+                positions=pos, boxlength=self.Ls[t].copy(), boxbounds=self.bounds(t),
                 realbounds=None, hmatrix=np.diag(self.Ls[t])))
         return Snapshots(nsnapshots=len(snaps), snapshots=snaps)
 
@@ -245,6 +290,9 @@ class World(WorldBase):
             "maxT": rng.randint(1, 3),
             "w_volmat": rng.choice([0, 1, 2]),
             "huge": rng.random() < float(os.environ.get("VERIF_C20_HUGE", "0.003")),
+            "p_env": rng.choice([0.0, 0.1, 0.3]),
+            "p_thread": rng.choice([0.0, 0.0, 0.2]),
+            "p_nest": rng.choice([0.0, 0.1, 0.3]),
             "faults": [],
             "hold_max": 0,
         }
@@ -266,12 +314,14 @@ class World(WorldBase):
         super().__init__(ctx, swarm)
         self.configs = {}
         self.snaps = {}      # config name -> the session's one Snapshots object for it
+        self.delivered = []  # (array as returned, expected copy, description, tag) of recent reads
         self.outs = {}       # prefix -> dict(cfg, frames_n, frames_w, gen)
         self.gen_no = {}
         self.handles = {}
         self.next_h = 0
         self.next_c = 0
-        os.makedirs("sub", exist_ok=True)      # one of the output prefixes names a directory
+        os.makedirs("sub", exist_ok=True)      # some of the output prefixes name a directory
+        os.makedirs("neighbors.d", exist_ok=True)
 
     # ---------------------------------------------------------------- generation ----
     def gen(self, rng):
@@ -291,7 +341,7 @@ class World(WorldBase):
         if live:
             choices += ["open_reader"] * 3
         if readable:
-            choices += ["read_frame"] * 7
+            choices += ["read_frame"] * 7 + ["skip_frame"]
         if self.handles:
             choices += ["close"]
         choices += ["volume_matrix"] * sw["w_volmat"]
@@ -313,9 +363,22 @@ class World(WorldBase):
             if op["nmax"] is not None and op["nmax"] < 1:
                 op["nmax"] = 1
             fk = [k for k in sw["faults"] if k in ("short_read", "oserror_read", "interrupt")]
+            cfg = self.configs[self.outs[d["prefix"]]["cfg"]]
             if fk and rng.random() < sw.get("p_fault", 0):
-                op["fault"] = {"kind": rng.choice(fk), "at": rng.randint(1, self.configs[self.outs[d["prefix"]]["cfg"]].N + 1)}
+                op["fault"] = {"kind": rng.choice(fk), "at": rng.randint(1, cfg.N + 1)}
+            else:
+                self.gen_env(rng, op)
+                others = [x for x in readable if x != h]
+                if others and rng.random() < sw.get("p_nest", 0.0):
+                    same = [x for x in others if self.configs[self.outs[self.handles[x]["prefix"]]["cfg"]].N == cfg.N]
+                    h2 = rng.choice(same if same and rng.random() < 0.7 else others)
+                    inner = {"op": rng.choice(["read_frame", "read_frame", "skip_frame"]), "h": h2}
+                    if inner["op"] == "read_frame":
+                        inner["nmax"] = op["nmax"] if rng.random() < 0.7 else rng.choice([1, 3, 200, None])
+                    op["nest"] = {"at": rng.randint(1, cfg.Ns[d["cursor"]] + 1), "op": inner}
             return op
+        if kind == "skip_frame":
+            return {"op": "skip_frame", "h": rng.choice(readable)}
         if kind == "close":
             return {"op": "close", "h": rng.choice(sorted(self.handles))}
         if kind == "release":
@@ -353,9 +416,12 @@ class World(WorldBase):
                    "shape": rng.choice(["cube", "cube", "cube", "slab"]),
                    "layout": rng.choice(["random", "lattice"]), "boxes": rng.choice(["const", "const", "vary", "creep", "cycle"]),
                    "nvary": rng.random() < 0.25,
+                   "mem": rng.choice(["C", "C", "C", "F", "strided", "f32"]),
                    "subseed": rng.randrange(1 << 40)}
             if huge:
-                rec.update(layout="hex", shape="cube", T=1)
+                # now and then several frames: more than 4 MiB of text per output file
+                rec.update(layout="hex", shape="cube", T=rng.choice([1, 1, 2] if os.environ.get("VERIF_TIER", "quick") == "quick" else [1, 2, 7]),
+                           boxes="const", nvary=False, mem="C")
             if vconfig(rec).general_position():
                 return {"op": "mk_config", "name": f"c{self.next_c}", "recipe": rec}
             self.ctx.probe("regen_general_position")
@@ -368,7 +434,35 @@ class World(WorldBase):
         if fk and rng.random() < sw.get("p_fault", 0) * 1.5:
             nev = self.dry_events(lambda: self.invoke(op))
             op["fault"] = {"kind": rng.choice(fk), "at": self.pick_fault_event(rng, nev), "hold": rng.randint(0, sw["hold_max"])}
+        else:
+            self.gen_env(rng, op)
+            readable = sorted(h for h, d in self.handles.items() if not d["stale"] and d["prefix"] != op["prefix"]
+                              and d["cursor"] < self.configs[self.outs[d["prefix"]]["cfg"]].T)
+            if readable and rng.random() < sw.get("p_nest", 0.0):
+                inner = {"op": "read_frame", "h": rng.choice(readable), "nmax": rng.choice([3, 200, None])}
+                op["nest"] = {"at": rng.randint(1, 6 * self.configs[op["cfg"]].N), "op": inner}
         return op
+
+    def gen_env(self, rng, op):
+        sw = self.swarm
+        if rng.random() < sw.get("p_env", 0.0):
+            op["printopts"] = {"threshold": rng.choice([5, 50, 1000]), "linewidth": rng.choice([20, 75, 200]),
+                               "edgeitems": rng.choice([1, 3]), "precision": rng.choice([3, 8])}
+        if rng.random() < sw.get("p_thread", 0.0):
+            op["thread"] = True
+
+    def client(self, op, fn):
+        po = op.get("printopts")
+
+        def run():
+            if po:
+                np.set_printoptions(**po)
+                self.ctx.probe("client_changed_numpy_printoptions")
+            return fn()
+        if op.get("thread"):
+            self.ctx.probe("call_from_worker_thread")
+            return self.in_thread(run)
+        return run
 
     # ----------------------------------------------------------------- execution ----
     def files_of(self, prefix, ndim):
@@ -446,7 +540,10 @@ class World(WorldBase):
             self.ctx.probe("rewrite_while_failed_call_held")
         fault = op.get("fault")
         session = self.session_snaps(op["cfg"])
-        res, exc, (nev, dig, fired) = self.call(lambda: self.invoke(op, session), fault)
+        if fault is None and op.get("nest"):
+            fault = self.nest_plan(op["nest"])
+        res, exc, (nev, dig, fired) = self.call(self.client(op, lambda: self.invoke(op, session)), fault)
+        self.raise_nested()
         self.check_session_snaps(op["cfg"])
         if exc is not None:
             if fired and fired[0] in ("interrupt", "oserror_write"):
@@ -553,7 +650,11 @@ class World(WorldBase):
         nmax, f = op["nmax"], d["f"]
         n_t = cfg.Ns[d["cursor"]]
         fn = (lambda: read_neighbors(f, n_t)) if nmax is None else (lambda: read_neighbors(f, n_t, nmax))
-        res, exc, (nev, dig, fired) = self.call(fn, op.get("fault"))
+        fault = op.get("fault")
+        if fault is None and op.get("nest"):
+            fault = self.nest_plan(op["nest"])
+        res, exc, (nev, dig, fired) = self.call(self.client(op, fn), fault)
+        self.raise_nested()
         tag = f"read_frame:{d['which']}"
         if exc is not None:
             self.drop_last()
@@ -578,7 +679,34 @@ class World(WorldBase):
         if fired:
             self.ctx.probe("read_correct_under_" + fired[0])
         d["cursor"] += 1
+        # the client keeps what it was given: later reads must not change an earlier frame
+        self.delivered = (self.delivered + [(res, want, f"frame {d['cursor'] - 1} of {d['path']}", tag)])[-12:]
         return f"{op['h']} t={d['cursor'] - 1} nmax={nmax} ev={nev} io={dig}"
+
+    def do_skip_frame(self, op):
+        d = self.handles.get(op["h"])
+        if d is None or d["stale"]:
+            raise Refuse("no handle")
+        cfg = self.configs[self.outs[d["prefix"]]["cfg"]]
+        if d["cursor"] >= cfg.T:
+            raise Refuse("at end")
+        f, n_t = d["f"], cfg.Ns[d["cursor"]]
+        lines, exc, _ = self.call(lambda: [f.readline() for _ in range(n_t + 1)])
+        if exc is not None:
+            self.drop_last()
+            raise Violation("C20/skip-raised:skip_frame", f"{exc}")
+        if len(lines) != n_t + 1 or not lines[0].startswith("id") or any(not ln.endswith("\n") for ln in lines):
+            raise Violation("C20/reader-cursor:skip_frame", f"handle {op['h']} was not at the start of frame {d['cursor']} of {d['path']}")
+        d["cursor"] += 1
+        self.ctx.probe("frame_skipped_by_client_with_text_api")
+        return f"{op['h']} skipped t={d['cursor'] - 1}"
+
+    def invariants(self):
+        super().invariants()
+        for got, want, what, tag in self.delivered:
+            if got.dtype != want.dtype or got.shape != want.shape or not np.array_equal(got, want):
+                raise Violation(f"C20/delivered-frame-changed:{tag}",
+                                f"the array returned earlier for {what} no longer holds that frame (a later read changed it)")
 
     def do_close(self, op):
         d = self.handles.pop(op["h"], None)
@@ -644,6 +772,12 @@ class World(WorldBase):
         if k > 0:
             self.ctx.probe("volmat_frame_index_gt0")
         if not op["transform"]:
+            # the values themselves, from the definition (an all-zero matrix also has zero row sums)
+            want = cfg.volmat_reference(k, op["deltar"])
+            err = float(np.max(np.abs(res - want)))
+            if not err <= 1e-2 * float(np.max(np.abs(want))) + 1e-3:
+                raise Violation(f"C20/volmat-values:{tag}", f"frame {k}: the returned matrix differs from the finite-difference definition by {err:.3g} (largest entry {np.max(np.abs(want)):.3g}); memory layout of the positions: {cfg.recipe.get('mem', 'C')}")
+            self.ctx.probe("volmat_values_checked")
             a = res.reshape(nk, nk, nd)
             rs = np.abs(a.sum(axis=1))
             scale = max(1e-300, float(np.max(np.abs(res))))
@@ -684,7 +818,7 @@ class World(WorldBase):
         return tuple(out)
 
     def nontrivial(self, ops):
-        return sum(1 for o in ops if o["op"] in ("produce", "read_frame", "release", "volume_matrix")) >= 3
+        return sum(1 for o in ops if o["op"] in ("produce", "read_frame", "skip_frame", "release", "volume_matrix")) >= 3
 
     @staticmethod
     def simplify(op):
